@@ -659,7 +659,7 @@ func (h *c09hist) step() {
 }
 
 func checkC09(r *mon.Run) {
-	r.Rule = "seeded histories (length 1..40) of Append/AppendSignature/Remove/RemoveSignature/BytesExists/SigDataExists/Exists(list)/AppendList/AppendDatabase/list-level AppendBytes+RemoveBytes/encode→decode over a small universe (types SHA-256, X.509, SHA-1, unknown GUID; 3 owners; three 32-byte hashes, 31/33-byte hashes, two DER certificates of equal length + one other, each also as PEM), from empty or from a decoded capture; every return value and the state after every step are checked against an abstract ordered-entry model, list size equations, duplicate-freeness and the reference decoder; distinct = op-kind sequences containing >=1 successful append and >=1 remove or collision"
+	r.Rule = "seeded histories (length 1..40) of Append/AppendSignature/Remove/RemoveSignature/BytesExists/SigDataExists/Exists(list)/AppendList/AppendDatabase/list-level AppendBytes+RemoveBytes/encode→decode over a small universe (types SHA-256, X.509, SHA-1, unknown GUID; 3 owners; three 32-byte hashes, 31/33-byte hashes, two DER certificates of equal length + one other, each also as PEM), from empty or from a decoded capture; every return value and the state after every step are checked against an abstract ordered-entry model, list size equations, duplicate-freeness and the reference decoder; databases handed to AppendDatabase are kept and must stay well-formed whatever happens to the receiver; distinct = op-kind sequences containing >=1 successful append and >=1 remove or collision"
 	r.Assume("AppendList/AppendDatabase receive fresh non-empty lists built through the list-level API whose entries are not yet in the database; one *SignatureList is never aliased twice")
 	caps := eslCaptures()
 	n := r.N(3000, 200000)
